@@ -37,10 +37,12 @@ type chainCase struct {
 	RH       []hspec   `json:"route_handlers,omitempty"`
 	NF       []hspec   `json:"notfound_handlers,omitempty"`
 	Action   *hspec    `json:"action,omitempty"`
-	NotFound bool      `json:"request_unrouted,omitempty"`                  // drive the not-found chain
-	Probe    int       `json:"sibling_route_with_handler_prefix,omitempty"` // >0: a sibling route /probe is registered with the first Probe handlers of the very slice /x is given (and requested first, or second when negative)
-	Wrapper  bool      `json:"handler_wrapper,omitempty"`                   // Router.HandlerWrapper turns the reflective func(Context,*http.Request) handlers into a FastInvoker
-	Method   string    `json:"method,omitempty"`                            // GET (default) | HEAD | POST: for HEAD no body byte is forwarded, yet a body write still counts as "written"
+	NotFound bool      `json:"request_unrouted,omitempty"`                                // drive the not-found chain
+	Probe    int       `json:"sibling_route_with_handler_prefix,omitempty"`               // >0: a sibling route /probe is registered with the first Probe handlers of the very slice /x is given (and requested first, or second when negative)
+	Wrapper  bool      `json:"handler_wrapper,omitempty"`                                 // Router.HandlerWrapper turns the reflective func(Context,*http.Request) handlers into a FastInvoker
+	SharedMW bool      `json:"middleware_through_handlers_from_a_shared_slice,omitempty"` // all but the last middleware are installed with Handlers(slice...) from a slice with spare capacity, the last one with Use; a second instance is then set up from the same slice with a Use of its own
+	BadSetup bool      `json:"failed_setup_calls,omitempty"`                              // after set-up, Use(h, 42, h) and NotFound(h, "oops") are attempted and fail loudly (recovered): nothing of them may be left behind
+	Method   string    `json:"method,omitempty"`                                          // GET (default) | HEAD | POST: for HEAD no body byte is forwarded, yet a body write still counts as "written"
 }
 
 func init() {
@@ -120,6 +122,35 @@ func genChainCase(r *rand.Rand) *chainCase {
 		h := genHspec(r)
 		c.Action = &h
 	}
+	if r.Intn(60) == 0 {
+		// pad the whole chain to a length around a power of two with passing handlers, spread over middleware,
+		// the innermost group and the route
+		target := []int{63, 64, 65, 66, 127, 128, 129, 130, 255, 256, 257}[r.Intn(11)]
+		total := len(c.MW) + len(c.RH)
+		for _, g := range c.Groups {
+			total += len(g)
+		}
+		if len(c.Groups) == 0 {
+			c.Groups = append(c.Groups, nil)
+		}
+		for ; total < target; total++ {
+			h := hspec{Acts: []act{{Op: "ev"}}, Reflect: r.Intn(2) == 0}
+			if r.Intn(3) == 0 {
+				h.Acts = append(h.Acts, act{Op: "next"})
+			}
+			switch r.Intn(3) {
+			case 0:
+				c.MW = append(c.MW, h)
+			case 1:
+				gi := len(c.Groups) - 1
+				c.Groups[gi] = append(c.Groups[gi], h)
+			default:
+				c.RH = append([]hspec{h}, c.RH...)
+			}
+		}
+	}
+	c.SharedMW = len(c.MW) >= 2 && r.Intn(5) == 0
+	c.BadSetup = r.Intn(6) == 0
 	c.Method = []string{"GET", "GET", "GET", "HEAD", "HEAD", "POST"}[r.Intn(6)]
 	c.Wrapper = r.Intn(4) == 0
 	if len(c.RH) >= 2 && r.Intn(5) == 0 {
@@ -503,9 +534,28 @@ func judgeChain(w *core.W, c *chainCase) {
 		})
 	}
 	idx := 0
-	for i := range c.MW {
-		f.Use(x.mk(idx, &c.MW[i]))
+	junk := func(id int) flamego.Handler {
+		return func() { x.tr = append(x.tr, fmt.Sprintf("left-behind-handler-%d-ran", id)) }
+	}
+	if c.SharedMW && len(c.MW) >= 2 {
+		k := len(c.MW) - 1
+		common := make([]flamego.Handler, 0, k+4)
+		for i := 0; i < k; i++ {
+			common = append(common, x.mk(idx, &c.MW[i]))
+			idx++
+		}
+		f.Handlers(common...)
+		f.Use(x.mk(idx, &c.MW[k]))
 		idx++
+		other := flamego.NewWithLogger(io.Discard)
+		other.Handlers(common...)
+		other.Use(junk(800))
+		w.Count("middleware-from-a-shared-slice")
+	} else {
+		for i := range c.MW {
+			f.Use(x.mk(idx, &c.MW[i]))
+			idx++
+		}
 	}
 	nfBase := idx
 	if c.NotFound {
@@ -552,6 +602,33 @@ func judgeChain(w *core.W, c *chainCase) {
 	}
 	if c.Action != nil {
 		f.Action(x.mk(idx, c.Action))
+	}
+	if c.BadSetup {
+		failed := 0
+		for _, call := range []func(){
+			func() { f.Use(junk(900), 42, junk(901)) },
+			func() {
+				if c.NotFound {
+					f.NotFound(junk(902), "oops")
+				} else {
+					f.Get("/x/never", junk(903), 42)
+				}
+			},
+		} {
+			func() {
+				defer func() {
+					if recover() != nil {
+						failed++
+					}
+				}()
+				call()
+			}()
+		}
+		if failed != 2 {
+			w.Count("unjudged:non-function-handler-accepted")
+			return
+		}
+		w.Count("failed-setup-calls-before-serving")
 	}
 	target := path + "/x"
 	if c.NotFound {
@@ -636,6 +713,9 @@ func judgeChain(w *core.W, c *chainCase) {
 	if maxNext >= 2 {
 		w.Count("next-twice-in-one-handler")
 	}
+	if len(c.chain()) >= 65 {
+		w.Count("chain>=64-handlers")
+	}
 	sawRectx := false
 	for _, e := range x.tr {
 		if strings.HasPrefix(e, "rectx") {
@@ -673,7 +753,7 @@ func runC03(r *core.Run) {
 		judgeChain(w, c)
 	})
 	r.Gate("distinct_nontrivial", r.NonTrivialCount(), 2000)
-	for _, k := range []string{"nil-action-reached", "not-found-chain", "panic-unwound", "next-twice-in-one-handler", "cancel-executed", "deadline-expired-executed", "write-via:wrap", "write-via:mount", "cancel-of-replaced-request-context", "head-request-written", "sibling-route-with-shared-handler-prefix"} {
+	for _, k := range []string{"nil-action-reached", "not-found-chain", "panic-unwound", "next-twice-in-one-handler", "cancel-executed", "deadline-expired-executed", "write-via:wrap", "write-via:mount", "middleware-from-a-shared-slice", "failed-setup-calls-before-serving", "chain>=64-handlers", "cancel-of-replaced-request-context", "head-request-written", "sibling-route-with-shared-handler-prefix"} {
 		r.GateCounter(k, 50)
 	}
 }
